@@ -1401,6 +1401,7 @@ func (c *c07ctx) compile() (ok bool) {
 	// second instance for the Longest mode (Longest mutates the engine), via Copy for the
 	// valid corpus so that Copy is exercised
 	c.api = "Copy"
+	c.setProgress(-1, -1) // each compilation is its own watched step
 	if c.p.hostile {
 		c.reL, _ = coregex.Compile(c.p.pat)
 	} else {
@@ -1413,6 +1414,7 @@ func (c *c07ctx) compile() (ok bool) {
 	c.api = "Longest"
 	c.reL.Longest()
 	c.api = "meta.CompileWithConfig"
+	c.setProgress(-1, -1)
 	eng, err := meta.CompileWithConfig(c.p.pat, c07CompileConfig())
 	if err != nil || eng == nil {
 		c.bad("compile-meta", fmt.Sprintf("coregex.Compile succeeded, meta.CompileWithConfig: %v", err))
@@ -1622,7 +1624,10 @@ func (pp *c07parent) run(lo, hi int, skip []string, only string, tag string) c07
 	go func() { exited <- cmd.Wait() }()
 	res := c07runResult{}
 	t0 := time.Now()
-	lastTick, lastChange := int64(-1), time.Now()
+	// A hang is measured in CPU seconds the child consumed without advancing its progress word
+	// (load on the machine does not count), with a wall-clock backstop of 20x for a child
+	// that sleeps forever.
+	lastTick, lastChange, lastCPU := int64(-1), time.Now(), 0.0
 	tk := time.NewTicker(25 * time.Millisecond)
 	defer tk.Stop()
 loop:
@@ -1632,9 +1637,15 @@ loop:
 			break loop
 		case <-tk.C:
 			t := atomic.LoadInt64((*int64)(unsafe.Pointer(&prog[24])))
+			cpu := c07ChildCPU(cmd.Process.Pid)
 			if t != lastTick {
-				lastTick, lastChange = t, time.Now()
-			} else if time.Since(lastChange) > pp.hangLimit || time.Since(t0) > pp.batchMax {
+				c07MaxMu.Lock()
+				if d := cpu - lastCPU; d > c07MaxCallCPU {
+					c07MaxCallCPU = d
+				}
+				c07MaxMu.Unlock()
+				lastTick, lastChange, lastCPU = t, time.Now(), cpu
+			} else if cpu-lastCPU > pp.hangLimit.Seconds() || time.Since(lastChange) > 20*pp.hangLimit || time.Since(t0) > pp.batchMax {
 				res.timeout = true
 				cmd.Process.Kill()
 				res.err = <-exited
@@ -1660,6 +1671,30 @@ loop:
 		res.lines = append(res.lines, l)
 	}
 	return res
+}
+
+// largest CPU time one call (one progress step) of any child consumed, for the evidence
+var c07MaxCallCPU float64
+var c07MaxMu sync.Mutex
+
+// c07ChildCPU: user+system CPU seconds of process pid (all threads), from /proc/<pid>/stat.
+func c07ChildCPU(pid int) float64 {
+	b, err := os.ReadFile(fmt.Sprintf("/proc/%d/stat", pid))
+	if err != nil {
+		return 0
+	}
+	i := bytes.LastIndexByte(b, ')')
+	if i < 0 {
+		return 0
+	}
+	f := strings.Fields(string(b[i+1:]))
+	if len(f) < 13 {
+		return 0
+	}
+	var ut, stt float64
+	fmt.Sscan(f[11], &ut)
+	fmt.Sscan(f[12], &stt)
+	return (ut + stt) / 100
 }
 
 // describe the call (pattern, haystack, api) a progress word names
@@ -1797,9 +1832,9 @@ func c07Main(args []string) int {
 		}
 	}
 	if *hang == 0 {
-		*hang = 10
+		*hang = 150
 		if thorough {
-			*hang = 60
+			*hang = 150
 		}
 	}
 	exe, err := os.Executable()
@@ -1926,6 +1961,8 @@ func c07Main(args []string) int {
 	st.Extra["child_seconds_total"] = childSeconds
 	st.Extra["jobs"] = *jobs
 	st.Extra["hang_limit_seconds"] = *hang
+	st.Extra["hang_limit_unit"] = "CPU seconds of the child without progress (wall-clock backstop 20x)"
+	st.Extra["max_cpu_seconds_of_one_step"] = c07MaxCallCPU
 	st.Extra["child_max_stack_bytes"] = 256 << 20
 	st.Extra["slowest_compile_ms"] = compileMax
 	st.Extra["slowest_compile_pattern"] = c07Trunc(compileMaxPat, 160)
